@@ -6,10 +6,13 @@
     (failed [assert!], slice index out of bounds, [debug_assert!] of the reader at end of input),
     or — for [write_loop] only — for exhausted fuel, which the theorems exclude.
     Extents, indices and offsets are unbounded [N]: inside [get_index] this is exact for every constructed
-    tensor ([c19_get_index_no_overflow], via the width-checked copy [gi_loop_chk]); the product computed by
-    the constructors is assumed representable (shapes whose Π dims exceeds usize::MAX are outside the
-    property: they panic in the debug profile and wrap in the release profile).  Elements are an
-    arbitrary type [A].  Definitions only, no proofs. *)
+    tensor ([c19_get_index_no_overflow], via the width-checked copy [gi_loop_chk]).  The element count of the
+    constructors is the checked fold [volume] of the code ([try_fold] with [checked_mul], panic when Π dims does
+    not fit into usize): [from_vec_chk], [from_slice_chk], [new_chk], [read_chk] take the largest representable
+    value [W] and are what the correspondence cases run; the unbounded [from_vec], [from_slice], [new], [read]
+    are what the theorems are stated about, and [c19_checked_volume] relates the two (equal whenever Π dims <= W,
+    rejection otherwise; for from_vec / from_slice equal for every data vector whose length is representable).
+    Elements are an arbitrary type [A].  Definitions only, no proofs. *)
 From Coq Require Import List NArith Bool.
 Import ListNotations.
 Local Open Scope N_scope.
@@ -51,7 +54,8 @@ Fixpoint setN (l : list A) (k : N) (v : A) : option (list A) :=
               else match setN r (N.pred k) v with Some r' => Some (x :: r') | None => None end
   end.
 
-(** constructors: [assert!(!dims.contains(&0)); assert_eq!(product, data.len())] *)
+(** constructors with the element count as the plain (unbounded) product: [assert!(!dims.contains(&0));
+    assert_eq!(Π dims, data.len())] -- what the theorems are stated about; the code's checked count follows below *)
 Definition from_vec (ds : list N) (l : list A) : option tensor :=
   if contains0 ds then None
   else if prod ds =? lenN l then Some (mk ds l) else None.
@@ -62,6 +66,35 @@ Definition from_slice (ds : list N) (l : list A) : option tensor :=
 Definition new (ds : list N) (v : A) : option tensor :=
   if contains0 ds then None
   else Some (mk ds (N.iter (prod ds) (cons v) [])).
+
+(** [volume(&dims)]: [dims.iter().try_fold(1usize, |acc, &d| acc.checked_mul(d)).expect(..)];
+    [W] = usize::MAX, [None] = a partial product does not fit (panic) *)
+Fixpoint vol_loop (W : N) (ds : list N) (acc : N) : option N :=
+  match ds with
+  | [] => Some acc
+  | d :: r => if acc * d <=? W then vol_loop W r (acc * d) else None
+  end.
+Definition volume (W : N) (ds : list N) : option N := vol_loop W ds 1.
+(** the constructors as written in the code: [assert!(!dims.contains(&0)); assert_eq!(volume(&dims), data.len())] *)
+Definition from_vec_chk (W : N) (ds : list N) (l : list A) : option tensor :=
+  if contains0 ds then None
+  else match volume W ds with
+       | Some n => if n =? lenN l then Some (mk ds l) else None
+       | None => None
+       end.
+Definition from_slice_chk (W : N) (ds : list N) (l : list A) : option tensor :=
+  if contains0 ds then None
+  else match volume W ds with
+       | Some n => if n =? lenN l then Some (mk ds l) else None
+       | None => None
+       end.
+(** [vec![value; volume(&dims)]] *)
+Definition new_chk (W : N) (ds : list N) (v : A) : option tensor :=
+  if contains0 ds then None
+  else match volume W ds with
+       | Some n => Some (mk ds (N.iter n (cons v) []))
+       | None => None
+       end.
 
 (** [get_index]: [for i in (0..D).rev() { assert!(idx[i] < dims[i]); result += sz * idx[i]; sz *= dims[i]; }]
     The loop runs over the reversed index and shape. *)
@@ -104,6 +137,14 @@ Definition index_mut (t : tensor) (idx : list N) (v : A) : option tensor :=
   end.
 
 Definition iter (t : tensor) : list A := data t.
+(** [for (x, v) in t.iter_mut().zip(vs) { *x = v }]: the elements in storage order are overwritten by the
+    values, as far as both last; the shape is untouched *)
+Fixpoint zip_assign (l vs : list A) : list A :=
+  match l, vs with
+  | _ :: l', v :: vs' => v :: zip_assign l' vs'
+  | _, _ => l
+  end.
+Definition iter_mut_assign (t : tensor) (vs : list A) : tensor := mk (dims t) (zip_assign (data t) vs).
 
 (** [PartialEq]: [self.dims == other.dims && self.data == other.data] *)
 Fixpoint list_eqb {X} (e : X -> X -> bool) (x y : list X) : bool :=
@@ -195,10 +236,18 @@ Fixpoint read_vec (n : N) (toks : list (tok A)) : option (list A) :=
        | E x :: r => match read_vec (N.pred n) r with Some l => Some (x :: l) | None => None end
        | _ :: r => read_vec n r
        end.
-(** [Tensor::read]: [assert!(!dims.contains(&0)); reader.read_vec(product)] *)
+(** [Tensor::read] with the unbounded element count: [assert!(!dims.contains(&0)); reader.read_vec(Π dims)] *)
 Definition read (ds : list N) (toks : list (tok A)) : option tensor :=
   if contains0 ds then None
   else match read_vec (prod ds) toks with Some l => Some (mk ds l) | None => None end.
+
+(** [Tensor::read] as written in the code: [reader.read_vec(volume(&dims))] *)
+Definition read_chk (W : N) (ds : list N) (toks : list (tok A)) : option tensor :=
+  if contains0 ds then None
+  else match volume W ds with
+       | Some n => match read_vec n toks with Some l => Some (mk ds l) | None => None end
+       | None => None
+       end.
 
 End Tensor.
 Arguments tensor A : clear implicits.
